@@ -168,14 +168,21 @@ theorem tidy_withZone (role : P → Role) (W : Work L Z R) (r : Routine) (ref f 
   apply tidy_isFile role f _ (by rw [hf]; rfl)
   intro b; cases b
   · simp only [Bool.false_eq_true, if_false]
-    exact tidy_loadPdb role ref _ (by rw [href]; rfl) (fun rc => tidy_writeZone role tmp f _ _ ht hf (hk _))
+    refine tidy_loadPdb role ref _ (by rw [href]; rfl) (fun rc => ?_)
+    cases W.computeErr r rc with
+    | some e => exact tidy_finish role (.error e)
+    | none => exact tidy_writeZone role tmp f _ _ ht hf (hk _)
   · simp only [if_true]; exact tidy_readZone role W f k hf hk
 
 theorem tidy_zoneArg (role : P → Role) (W : Work L Z R) (r : Routine) (a : Args P) (k : Z → Prog P L R)
     (ha : a.Roles role) (hk : ∀ z, Tidy role (k z)) : Tidy role (zoneArg W r a k) := by
   unfold zoneArg
   cases hz : a.zone with
-  | none => exact tidy_loadPdb role a.ref _ (by rw [ha.ref]; rfl) (fun rc => hk _)
+  | none =>
+    refine tidy_loadPdb role a.ref _ (by rw [ha.ref]; rfl) (fun rc => ?_)
+    cases W.computeErr r rc with
+    | some e => exact tidy_finish role (.error e)
+    | none => exact hk _
   | some f => exact tidy_withZone role W r a.ref f a.tmp k ha.ref (ha.zone f hz) ha.tmp hk
 
 theorem tidy_export1 (role : P → Role) (W : Work L Z R) (r : Routine) (a : Args P) (obs : List (List L)) (res : Except Err R)
